@@ -492,10 +492,38 @@ def check_l3(run: Run, prog: Program, ledgers: dict[str, Ledgers]) -> None:
                   node=r, file=fn.file,
                   instance=f"{fn.qual}: remainder is the top-up residual plus the split residual, nothing else")
         started = False
+        started_with: str | None = None
         if len(g) == 1:
             gp = method_params_of(greedy_fn)
             arg = atoms[g[0]][2].get(gp[1]) if len(gp) > 1 else None
-            started = arg is not None and any(arg == Poly.atom(request) - Poly.atom(m) for m in lg.mirrors)
+            started_with = next((m for m in sorted(lg.mirrors)
+                                 if arg is not None and arg == Poly.atom(request) - Poly.atom(m)), None)
+            started = started_with is not None
+        # one ledger: every mirror under which cells were changed is (a copy-ancestor of) the mirror the
+        # remainder is computed from -- a ledger continued in a spliced helper must be handed back
+        used = None
+        if len(g) == 1 and started_with is not None:
+            used = started_with
+        chain: list[str] = []
+        cur = used
+        while cur is not None and cur not in chain:
+            chain.append(cur)
+            plain = [st for st in body_walk(fn.node) if isinstance(st, (ast.Assign, ast.AnnAssign))
+                     and getattr(st, "value", None) is not None and any(u(w) == cur for w in _targets(st))
+                     and lg.name_update(st) is None]
+            cur = None
+            if len(plain) == 1:
+                site0 = cfg.nodes_of(plain[0])
+                a0 = pv.term(site0[0], plain[0].value).as_atom() if site0 else None  # type: ignore[union-attr]
+                if a0 in lg.mirrors:
+                    cur = a0
+        if used is not None:
+            stray_mirrors = sorted(m for m in lg.mirrors if m not in chain)
+            run.check(not stray_mirrors, "C01.L3", fn.qual, f"every cell change is mirrored in `{used}`",
+                      f"allocation cells are changed under the ledger(s) {stray_mirrors} whose value does not flow "
+                      f"into `{used}`, the ledger the reported remainder is computed from: that power is lost",
+                      node=r, file=fn.file,
+                      instance=f"{fn.qual}: all mirrored cell changes flow into the ledger used for the remainder")
         run.check(started, "C01.L3", fn.qual, f"{greedy_name}(<cells>, {request} - <mirror>)",
                   "the remainder handed to the greedy top-up is not defined as request minus the "
                   "distributed-power ledger", node=r, file=fn.file,
@@ -508,7 +536,7 @@ def check_l3(run: Run, prog: Program, ledgers: dict[str, Ledgers]) -> None:
         run.check(bool(sp) == returns_pair, "C01.L3", fn.qual, "remainder += <residual of the per-inverter split>",
                   "the residual of the per-inverter split is not added to the reported remainder",
                   node=r, file=fn.file, instance=f"{fn.qual}: split residual is added to the remainder")
-    if n_final == 0:
+    if n_final == 0 and not run.violations:
         raise AnalysisError(f"{fn.qual}: no return built from the per-inverter split found")
     # the split function's second result is its own residual ledger
     sfn = _view(prog, f"{BDA}.{split_name}")
@@ -643,13 +671,30 @@ def _new_value(s: ast.AST) -> tuple[str, Poly] | None:
 
 
 def _negated_result(fn: FuncInfo, res: str) -> tuple[bool, bool]:
+    cells, rems, c_other, r_other = _negations(fn, res)
+    cfg = CFG(fn.node, fn.file)
+
+    def on_every_path(stmts: list[ast.AST]) -> bool:
+        # exactly one negating statement, passed by every normal path from the entry to the exit
+        if len(stmts) != 1:
+            return False
+        nodes = cfg.nodes_of(stmts[0])
+        return bool(nodes) and cfg.path(cfg.entry, [cfg.exit], avoid=nodes,
+                                        edge_ok=lambda a, b, lab: not lab.startswith("exc:")) is None
+
+    return on_every_path(cells) and not c_other, on_every_path(rems) and not r_other
+
+
+def _negations(fn: FuncInfo, res: str) -> tuple[list[ast.AST], list[ast.AST], int, int]:
     """(every set-point negated exactly once, remainder negated exactly once) for the result object
     bound to local `res`: in-place negation in one unconditional pass over the set-point map, or the
     map rebuilt by one unfiltered comprehension; `res.remaining_power` replaced by its negation."""
     from ._c15_util import loop_binding
 
     dist, rem = f"{res}.distribution", f"{res}.remaining_power"
-    cell_negs = cell_other = rem_negs = rem_other = 0
+    cell_other = rem_other = 0
+    cell_negs: list[ast.AST] = []
+    rem_negs: list[ast.AST] = []
     in_loops: set[int] = set()
     for s in body_walk(fn.node):
         if isinstance(s, ast.For):
@@ -662,7 +707,7 @@ def _negated_result(fn: FuncInfo, res: str) -> tuple[bool, bool]:
                 cur = Poly.atom(f"{dist}[{k}]")
                 if nv is not None and nv[0] == f"{dist}[{k}]" and (
                         nv[1] == -cur or (v is not None and nv[1] == -Poly.atom(v))):
-                    cell_negs += 1
+                    cell_negs.append(s)
                 elif any(isinstance(x, (ast.Assign, ast.AugAssign)) and (w := _new_value(x)) is not None
                          and w[0].startswith(dist) for x in inner):
                     cell_other += 1
@@ -674,7 +719,7 @@ def _negated_result(fn: FuncInfo, res: str) -> tuple[bool, bool]:
             continue
         if nv[0] == rem:
             if nv[1] == -Poly.atom(rem):
-                rem_negs += 1
+                rem_negs.append(s)
             else:
                 rem_other += 1
         elif nv[0] == dist and isinstance(s, ast.Assign) and isinstance(s.value, ast.DictComp):
@@ -683,12 +728,12 @@ def _negated_result(fn: FuncInfo, res: str) -> tuple[bool, bool]:
             if b is not None and b[0] == dist and u(c.key) == b[1] and (
                     (b[2] is not None and TermEval().ev(c.value) == -Poly.atom(b[2]))
                     or TermEval().ev(c.value) == -Poly.atom(f"{dist}[{b[1]}]")):
-                cell_negs += 1
+                cell_negs.append(s)
             else:
                 cell_other += 1
         elif nv[0].startswith(dist):
             cell_other += 1
-    return cell_negs == 1 and cell_other == 0, rem_negs == 1 and rem_other == 0
+    return cell_negs, rem_negs, cell_other, rem_other
 
 
 def check_sign(run: Run, prog: Program) -> None:
